@@ -93,8 +93,9 @@ fn history(cfg: &Cfg, rep: &mut Report, kind: Kind, h: u64, steps: usize) {
             if let Some((_, pl)) = pending {
                 t.extend([pl, pl.saturating_add(1)]);
             }
-            let t = *rng.pick(&t);
-            if t > cur && t < cur + 200_000 {
+            // (rarely far beyond every lifetime extension: the holder must not lapse, a dead offer stays dead)
+            let t = if rng.chance(1, 25) { cur + 1_700_000 } else { *rng.pick(&t) };
+            if t > cur && (t < cur + 200_000 || t == cur + 1_700_000) {
                 w.set_ledger(t);
                 rep.op(format!("ledger -> {t}"));
                 rep.count("ledger_moves");
